@@ -1,6 +1,6 @@
 //! `verif-harness replay --replay FILE --out DIR`: re-run the lines of a replay file on the real code
 //! (with the implementation-only oracles) and emit the request lines for the model.
-use crate::engines::{dec, headers, hostile, matcher, reuse, tables, window};
+use crate::engines::{ring, dec, headers, hostile, matcher, reuse, tables, window};
 use crate::util::*;
 
 fn dec_lines(run: &mut Run, lines: &[String]) {
@@ -89,6 +89,10 @@ pub fn run(opts: &Opts) -> Run {
         for (c, a) in r.cases.into_iter().zip(r.impl_out.into_iter()) {
             run.case(c, a);
         }
+    }
+    let r_l: Vec<String> = lines.iter().filter(|l| l.starts_with("ring ")).cloned().collect();
+    if !r_l.is_empty() {
+        ring::replay(&r_l, &mut run);
     }
     for l in lines.iter().filter(|l| l.starts_with("reuse ")) {
         reuse::replay_line(&mut run, l);
